@@ -118,6 +118,9 @@ func (ft *funcTr) block(list []ast.Stmt, m mode, ind string) string {
 		if isPanicStmt(s) {
 			return ft.panicStmt(s, ind) // state.go
 		}
+		if isMayFailStmt(s) {
+			return ft.mayFailStmt(s, rest, m, ind) // segfail.go
+		}
 		return ft.simple(s, ind) + ft.block(rest, m, ind)
 	}
 	ft.t.fail(s, "statement of kind %T", s)
